@@ -255,7 +255,8 @@ def run(ctx):
     internal = [(m, n) for m in roles.cls.methods.values() for n in ast.walk(m.node)
                 if isinstance(n, ast.Call) and _self_attr(n.func) == roles.force.name]
     writes = [(m, n) for m in roles.cls.methods.values() if m not in (roles.force, roles.reset, roles.init) for n in ast.walk(m.node)
-              if isinstance(n, ast.Assign) and any(_self_attr(t) == roles.force_flag for t in n.targets)]
+              if isinstance(n, ast.Assign) and any(_self_attr(t) == roles.force_flag for t in n.targets) and
+              not (isinstance(n.value, ast.Constant) and n.value.value is False)]      # clearing is not forcing
     cc.instance('the recorder never requests forcing itself (decision independent of the outcome)', roles.cls.name, not internal and not writes)
     for m, n in internal + writes:
         res.add(Finding('C17', 'C17.c', 'R-TAINT', m.file, m.qualname, n.lineno, norm(n),
